@@ -37,6 +37,76 @@ type out struct {
 	IRSize    int   `json:"ir_size"`
 }
 
+type seqStep struct {
+	Reset     bool  `json:"reset"`
+	IR        []int `json:"ir"`
+	Alpha     []int `json:"alpha"`
+	FailIR    bool  `json:"fail_ir"`
+	FailAlpha bool  `json:"fail_alpha"`
+	IsAlpha   bool  `json:"is_alpha"`
+	IsActive  bool  `json:"is_active"`
+	AlphaIdx  int   `json:"alpha_idx"`
+	IRIdx     int   `json:"ir_idx"`
+	IRSize    int   `json:"ir_size"`
+}
+
+type seqOut struct {
+	Kind  string    `json:"kind"`
+	Own   int       `json:"own"`
+	Steps []seqStep `json:"steps"`
+}
+
+// histories on ONE indexer instance: lookups whose chain answers change or fail, with and
+// without a reset in between (a reset is what a chain restart does); the first steps of the
+// fixed histories are the ones a cache of a partial result would get wrong
+func seqMain(g *rng, univ []*keys.PublicKey, n int) {
+	const U = 6
+	enc := json.NewEncoder(os.Stdout)
+	pick := func() ([]int, keys.PublicKeys) {
+		ln := g.n(U + 1)
+		idx := []int{}
+		var ks keys.PublicKeys
+		for j := 0; j < ln; j++ {
+			i := g.n(U)
+			idx = append(idx, i)
+			ks = append(ks, univ[i])
+		}
+		return idx, ks
+	}
+	for c := 0; c < n; c++ {
+		own := g.n(U)
+		ln := 2 + g.n(5)
+		var steps []innerring.VerifMemberStep
+		var rec []seqStep
+		for i := 0; i < ln; i++ {
+			var st innerring.VerifMemberStep
+			var r seqStep
+			r.IR, st.IR = pick()
+			r.Alpha, st.Alpha = pick()
+			switch {
+			case c%4 == 0 && i == 0: // fresh node: inner ring answers, committee lookup fails
+				st.FailAlpha = true
+			case c%4 == 1 && i == 0: // member first ...
+				r.Alpha, st.Alpha = append(r.Alpha, own), append(st.Alpha, univ[own])
+			case c%4 == 1 && i == 1: // ... then removed, restart, committee lookup fails
+				st.Reset, st.FailAlpha = true, true
+			default:
+				st.Reset = g.n(3) == 0
+				st.FailIR = g.n(6) == 0
+				st.FailAlpha = g.n(5) == 0
+			}
+			r.Reset, r.FailIR, r.FailAlpha = st.Reset, st.FailIR, st.FailAlpha
+			steps = append(steps, st)
+			rec = append(rec, r)
+		}
+		obs := innerring.VerifMembershipSeq(univ[own], steps)
+		for i := range rec {
+			rec[i].IsAlpha, rec[i].IsActive, rec[i].AlphaIdx, rec[i].IRIdx, rec[i].IRSize = obs[i].IsAlphabet, obs[i].IsActive, obs[i].AlphaIdx, obs[i].IRIdx, obs[i].IRSize
+		}
+		_ = enc.Encode(seqOut{Kind: "seq", Own: own, Steps: rec})
+	}
+}
+
 func main() {
 	seed, _ := strconv.ParseUint(os.Getenv("VERIF_SEED"), 10, 64)
 	n := 600
@@ -64,6 +134,7 @@ func main() {
 		}
 		return idx, ks
 	}
+	seqMain(g, univ, n/3)
 	enc := json.NewEncoder(os.Stdout)
 	for c := 0; c < n; c++ {
 		o := out{Own: g.n(U), FailIR: g.n(8) == 0, FailAlpha: g.n(8) == 0}
